@@ -27,6 +27,8 @@ def run(tier, seed):
             ctx.replay(gs, Hist1DAdapter(POS[pe], WTS[we], spelling=sp), VIEW, label=f"1D-sim:{pe}/{we}/sp{sp}")
     from props import trace_h1
     trace_h1.run_part(ctx, tier, seed_offset=23)       # engine T: recorded float executions validated by TLC
+    from props import trace_nd
+    trace_nd.run_part(ctx, tier, seed_offset=47)       # the same for 2 and 3 axes
     nd_part(ctx, tier)
     ctx.assumptions = ["binning depends only on the order of values and edges (embedding fan-out)",
                        "histories are bounded (see tlc_runs), batches <= 2 (quick) / 3 (thorough) entries"]
